@@ -434,6 +434,9 @@ Commit ==
         /\ ChkC("C25", "mark-call-has-sequential-effect", ci, E.calls[ci].fn \in {"mark", "unmark"} => CallOK(E.calls[ci]))
   /\ \A ci \in 1..(Len(E.calls) - 1) :
         ChkC("C03", "reads-stable-between-calls", ci, E.calls[ci].after = E.calls[ci + 1].before)
+  \* the same calls through an AutoCommit copy with the same actor: same results, same view after every call,
+  \* the same committed change (hash)
+  /\ Chk("C03", "autocommit-front-end-agrees-with-the-transaction", "auto" \in DOMAIN E => E.auto.same)
   /\ Chk("C03", "committed-state-equals-last-transaction-view",
          (Len(E.calls) > 0 /\ "view" \in DOMAIN E.obs /\ Len(E.iso) = 0)
             => E.obs.view = E.calls[Len(E.calls)].after)
